@@ -388,7 +388,10 @@ def prompt_slices_rule(ctx, R):
                   "process_prompt sets %s to T[%s .. %s] of T = prompt ++ forced bytes, expected T[%s .. %s] (P = prompt length, G = forced bytes, "
                   "C = bytes chopped for token healing): returned prompt + pending text no longer equals prompt + forced bytes — text is lost or invented"
                   % (fld, RC.lfmt(lo), RC.lfmt(hi), RC.lfmt(want[0]), RC.lfmt(want[1])), site=b.where(bi))
-    ctx.floor(R, "healing slices of process_prompt placed in prompt ++ forced-bytes coordinates", sum(1 for v in judged.values() if v), 2)
+    for fld, v in judged.items():
+        if not v:
+            ctx.info(R, "process_prompt: no interpretable slice feeds %s (e.g. split_at / iterator form) — not judged" % fld)
+    ctx.floor(R, "healing slices of process_prompt placed in prompt ++ forced-bytes coordinates", sum(1 for v in judged.values() if v), 1)
 
 
 def run(ctx):
